@@ -77,7 +77,11 @@ def pair_cases():
 
 
 def decode(d):
-    return {"d": gen.path_text(d, min_cmds=1, max_cmds=11)[0], "ctor": d.choice(lib.CTOR_FORMS)}
+    gen.ARC_NEGATIVE_RADII = True  # F.6.6: a negative radius stands for its absolute value
+    try:
+        return {"d": gen.path_text(d, min_cmds=1, max_cmds=11)[0], "ctor": d.choice(lib.CTOR_FORMS)}
+    finally:
+        gen.ARC_NEGATIVE_RADII = False
 
 
 def sampled():
